@@ -874,6 +874,7 @@ func init() {
 		checkGetOpts(r, prog, a, "c18")
 		checkEvaluatorPipeline(r, prog, a, "c18")
 		checkForwarding(r, prog, a, "c18")
+		checkOptionReadSites(r, prog, a, "c18")
 		r.importing = "C05"
 		checkValueLookup(r, prog, a, "c05") // consumption: gateway Config and the unknown-value branch
 		r.importing = "C11"
